@@ -12,8 +12,8 @@ ID = 'C03'
 RULE = ('regions: Cartesian {2x2 full, 3x2 with a hole, 1x3 column, 2x2 with a flagged-out cell} and quadtree {zoom 1, zoom 2, '
         'mixed-depth keys 0,10,11,12,13,2,3}; magnitude grids {[5,6,7], 4.95+0.1k (5 edges), single edge [5.0]}, each bound to '
         'the region and passed explicitly; event alphabet = 7 positions (cell centres, a cell corner, a shared edge, a hole or '
-        'flagged cell, outside on two sides / beyond the Mercator latitude limit and at lon=180) x 4 magnitudes (below the first '
-        'edge, exactly on an inner edge, mid-bin, above the top edge) = 28 letters; catalogs = ALL multisets of size 0..3 (quick: size 3 for two of the six magnitude configurations) '
+        'flagged cell, outside on two sides / beyond the Mercator latitude limit and at lon=180) x 5 magnitudes (below the first '
+        'edge, exactly on an inner edge, mid-bin, above the top edge, one ulp below the first edge) = 35 letters; catalogs = ALL multisets of size 0..3 (quick: size 3 for two of the six magnitude configurations) '
         '(thorough 0..4) in sorted, reversed and rotated order (thorough: all permutations up to size 3). A catalog is '
         'non-trivial iff it has a repeated letter, an event outside the region or below the lowest edge, or an event on an '
         'edge; distinct by construction.')
@@ -43,7 +43,10 @@ def mags_for(grid):
     e = MAG_GRIDS[grid]
     inner = e[1] if len(e) > 1 else e[0]
     mid = (e[0] + e[1]) / 2 if len(e) > 1 else e[0] + 0.7
-    return [e[0] - 0.5, inner, mid, e[-1] + 2.0]
+    import math
+    # last letter: one ulp below the first edge (inside the binning tolerance zone: it may be counted in the first bin or
+    # left uncounted, but every gridding function must make the SAME choice)
+    return [e[0] - 0.5, inner, mid, e[-1] + 2.0, math.nextafter(e[0], -math.inf)]
 
 
 def positions_for(rname):
@@ -82,7 +85,7 @@ def cases(tier, seed):
                 for size in range(0, mx + 1):
                     if tier == 'quick' and size == 3 and (grid, bound) not in (('m567', True), ('m495', False)):
                         continue
-                    yield dict(kind='block', region=rname, grid=grid, bound=bound, size=size,
+                    yield dict(kind='block', region=rname, grid=grid, bound=bound, size=size, zone=(tier == 'thorough' or size <= 2),
                                perms=('all' if tier == 'thorough' and size <= 3 else 'three'))
     if tier == 'quick':
         rname = (list(cart_regions()) + list(QUAD))[seed % 7]
@@ -146,6 +149,7 @@ def judge_catalog(rname, grid, bound, letters, pos, mags, edges, failures, hsh):
     evs = [(f'e{i}', 1262304000000 + i, pos[p][1], pos[p][0], 10.0, mags[m]) for i, (p, m) in enumerate(letters)]
     cells = [ref_cell(rname, pos[p][0], pos[p][1]) for p, m in letters]
     bins = [ref_bin(edges, mags[m]) for p, m in letters]
+    zone = [m == 4 for p, m in letters]          # tolerance-zone magnitudes (letter 4): bin -1 or 0, consistently
     n_cells = len(reg.polygons)
     nb = len(edges)
     all_in = all(c is not None for c in cells)
@@ -163,6 +167,8 @@ def judge_catalog(rname, grid, bound, letters, pos, mags, edges, failures, hsh):
         if b >= 0:
             want_mag[b] += 1
     kw = {} if bound else dict(mag_bins=numpy.array(edges))
+    if any(zone):
+        return judge_zone(rname, grid, bound, letters, evs, reg, cells, bins, zone, edges, kw, failures, hsh)
     cls = ('quadtree' if quad else 'cartesian') + (',event-outside-region' if not all_in else '') + (',magnitude-below-first-edge' if not all_mag else '')
     rep = dict(kind='single', region=rname, grid=grid, bound=bound, letters=[list(l) for l in letters])
     evals = 0
@@ -247,6 +253,60 @@ def judge_catalog(rname, grid, bound, letters, pos, mags, edges, failures, hsh):
     return evals
 
 
+def judge_zone(rname, grid, bound, letters, evs, reg, cells, bins, zone, edges, kw, failures, hsh):
+    """Catalogs containing a magnitude one ulp below the first edge: either reading (first bin / uncounted) is allowed, but
+    spatial_magnitude_counts and magnitude_counts must agree with each other and with one of the two readings."""
+    quad = not rname.startswith('cart')
+    cls = ('quadtree' if quad else 'cartesian') + ',magnitude-in-tolerance-zone-below-first-edge'
+    rep = dict(kind='single', region=rname, grid=grid, bound=bound, letters=[list(l) for l in letters])
+    n_cells, nb = len(reg.polygons), len(edges)
+
+    def reading(zone_bin):
+        w = numpy.zeros((n_cells, nb))
+        ok = True
+        for c, b, z in zip(cells, bins, zone):
+            b = zone_bin if z else b
+            if c is None or b < 0:
+                ok = False
+            else:
+                w[c, b] += 1
+        wm = numpy.zeros(nb)
+        for b, z in zip(bins, zone):
+            b = zone_bin if z else b
+            if b >= 0:
+                wm[b] += 1
+        return ok, w, wm
+    evals = 0
+    got_mc = got_sm = None
+    try:
+        got_mc = numpy.asarray(fixtures.catalog(evs, region=reg).magnitude_counts(**kw), dtype=float)
+        evals += 1
+        hsh.update(got_mc.tobytes())
+    except Exception as e:
+        failures.append(Fail(f'CSEPCatalog.magnitude_counts|{type(e).__name__}|{cls}', f'{type(e).__name__}: {e}', rep))
+    try:
+        got_sm = numpy.asarray(fixtures.catalog(evs, region=reg).spatial_magnitude_counts(**kw), dtype=float)
+        hsh.update(got_sm.tobytes())
+    except Exception:
+        got_sm = 'rejected'
+    evals += 1
+    verdicts = []
+    for zb in (0, -1):
+        ok, w, wm = reading(zb)
+        good = got_mc is not None and numpy.array_equal(got_mc, wm)
+        if ok:
+            good = good and (not isinstance(got_sm, str)) and numpy.array_equal(got_sm, w)
+        else:
+            good = good and isinstance(got_sm, str)
+        verdicts.append(good)
+    if not any(verdicts):
+        failures.append(Fail(f'CSEPCatalog.magnitude_counts|inconsistent-with-spatial_magnitude_counts|{cls}',
+                             f'magnitude_counts={None if got_mc is None else got_mc.tolist()} spatial_magnitude_counts={got_sm if isinstance(got_sm, str) else got_sm.tolist()}: '
+                             f'no single reading of the tolerance-zone magnitude (first bin / uncounted) explains both | region={rname} grid={grid} bound={bound} '
+                             f'events(lon,lat,mag)={[(e[3], e[2], e[5]) for e in evs]}', rep))
+    return evals
+
+
 def run_case(case):
     failures = []
     hsh = hashlib.sha1()
@@ -264,12 +324,14 @@ def run_case(case):
     edges = MAG_GRIDS[grid]
     letters = [(p, m) for p in range(len(pos)) for m in range(len(mags))]
     if cats is None:
+        if not case.get('zone', True):
+            letters = [l for l in letters if l[1] != 4]      # quick tier: the tolerance-zone letter only in catalogs of <= 2 events
         cats = [list(ms) for ms in itertools.combinations_with_replacement(letters, case['size'])]
     for ms in cats:
         for seq in orders(ms, perms):
             evals += judge_catalog(rname, grid, bound, seq, pos, mags, edges, failures, hsh)
             states += 1
-        if len(set(ms)) < len(ms) or any(ref_cell(rname, *pos[p]) is None for p, m in ms) or any(m in (0, 1) for p, m in ms):
+        if len(set(ms)) < len(ms) or any(ref_cell(rname, *pos[p]) is None for p, m in ms) or any(m in (0, 1, 4) for p, m in ms):
             nontriv += 1
         if len(failures) > 300:
             break
